@@ -2,6 +2,9 @@
 #include "simkit.hpp"
 #include "nlohmann/json.hpp"
 
+#ifdef VERIF_COVERAGE
+extern "C" void __gcov_dump(void);
+#endif
 namespace sim {
 
 using json = nlohmann::ordered_json;
@@ -578,6 +581,9 @@ int Main(int argc, char** argv, Engine& e) {
         }
       }
       flush(true);
+#ifdef VERIF_COVERAGE
+      __gcov_dump();   // reach measurement build (tools/reach.sh): workers leave through _exit
+#endif
       _exit(0);
     }
     close(pfd[1]);
